@@ -392,3 +392,16 @@ m("benign-poison-helper-use", "C14", "nomt/src/store/mod.rs",
   "            self.shared\n                .poisoned\n                .store(true, std::sync::atomic::Ordering::Relaxed);\n            return Err(e);",
   "            self.poison();\n            return Err(e);",
   None)
+
+m("c18-nonstrict-op-order", "C18", "core/src/proof/path_proof.rs",
+  "            if j != 0 && &path.ops[j - 1].0 >= key {",
+  "            if j != 0 && &path.ops[j - 1].0 > key {",
+  "precondition=ops_strictly_ascending|established")
+m("c18-nonstrict-op-order-multi", "C18", "core/src/proof/multi_proof.rs",
+  "                if key <= last_key {\n                    return Err(MultiVerifyUpdateError::OpsOutOfOrder);",
+  "                if key < last_key {\n                    return Err(MultiVerifyUpdateError::OpsOutOfOrder);",
+  "precondition=ops_strictly_ascending|established")
+m("benign-op-order-flipped-operands", "C18", "core/src/proof/multi_proof.rs",
+  "                if key <= last_key {\n                    return Err(MultiVerifyUpdateError::OpsOutOfOrder);",
+  "                if last_key >= key {\n                    return Err(MultiVerifyUpdateError::OpsOutOfOrder);",
+  None)
